@@ -175,9 +175,9 @@ Proof.
     destruct (is_ref e) eqn:Er.
     + (* page reference *)
       destruct (wf_ref t WF e (Hh e Hine) Er) as [e' [He' Hr']]. rewrite Eke in He'.
-      assert (Hl' : lookup k (merge h (page_at (t_pages t) (e_off e) (e_size e))) = Some e').
-      { rewrite merge_spec, Ee, Er, He'. reflexivity. }
-      rewrite Hl', Hr'.
+      assert (Hd : page_describes k (page_at (t_pages t) (e_off e) (e_size e)) = true).
+      { unfold page_describes. rewrite He', Hr'. reflexivity. }
+      rewrite Hd.
       assert (Hi2 : inv (merge h (page_at (t_pages t) (e_off e) (e_size e))) (st' ++ [k])).
       { apply (inv_merge h (k :: st')); [split; [exact Hh | split; [exact H2 | exact S1]]|].
         intros a Ha. apply in_app_or in Ha. destruct Ha as [Ha | [<- | []]]; simpl; auto. }
